@@ -10,6 +10,8 @@ re-implemented but named by uninterpreted functions (EXTERNALS below, trusted ba
   join_nl(L)      = "\n".join(L)              str           (py_join)
   "{} {} {}".format(i, c, j) is NOT abstract: it is str(i) + " " + c + " " + str(j) (Python: a replacement field without
   conversion / format spec inserts format(v, "") == str(v) for an int and for a str).
+  rstrip(s)       = s.rstrip()                str           (py_rstrip)
+  file_text(p) / file_lines(p)   what read() / readlines() of the file opened at path p return (functions of the path)
 The contract of BpSeq.from_string (proved for every text) uses no property of these functions at all.  The round trip
 (lemma bpseq_text_round_trip) needs the facts T1..T5 below (LEMMAS of kind "assumed-external", each listed in ASSUMPTIONS).
 
@@ -29,13 +31,14 @@ CLASSES = {
     # sequence is a general str here (not one character): from_string stores whatever the second column holds
     "Entry": {"kind": "object", "fields": {"index_": "int", "sequence": "str", "pair": "int"}},
     "BpSeq": {"kind": "object", "fields": {"entries": "list[Entry]", "pairs": "dict[int,int]"}, "derived": ["pairs"]},
+    "DotBracket": {"kind": "object", "fields": {"sequence": "str", "structure": "str", "pairs": "list[tuple[int,int]]"}, "derived": ["pairs"]},
+    "TextFile": {"kind": "object", "fields": {"path": "str"}},  # an open text file (read mode)
 }
 INLINE = ["Entry.__getitem__", "Entry.__len__"]
 
 UFUNS = {
     "cnt": (["str", "int"], "int"),   # cnt(t, k): number of kept lines among the first k lines of t (definition: cnt_definition)
     "plain": (["str"], "bool"),       # non-empty, no whitespace character (see module docstring)
-    "dec": (["int"], "str"),          # dec(i) = str(i), a NAME for the engine's encoding of str(int) (definition: dec_definition)
 }
 
 
@@ -173,10 +176,74 @@ def ext_str_of(e, args, kw, node, st):
     return e.to_str(args[0])
 
 
-EXTERNALS = {"str.splitlines": ext_splitlines, "str.split": ext_split, "str.strip": ext_strip, "str.format": ext_format,
+def ext_rstrip(e, args, kw, node, st):
+    """ASSUMED contract of s.rstrip() without arguments: a deterministic function of s (uninterpreted py_rstrip).  Nothing else."""
+    from pyvc.values import Unsupported, to_z3
+    if len(args) != 1 or kw or not _is_sym_str(args[0]):
+        raise Unsupported("str.rstrip(chars)")
+    if isinstance(args[0], str):
+        return args[0].rstrip()
+    return e.ufun("py_rstrip", _S(), _S())(to_z3(args[0]))
+
+
+ext_rstrip.pure = True
+
+
+def ext_open(e, args, kw, node, st):
+    """open(path) (text mode, reading): a new file object for that path; may fail with OSError.  The content of the file is a
+    function of the path for the duration of the call: file_text(path) = what read() returns, file_lines(path) = what readlines()
+    returns (uninterpreted; nothing is assumed about how the two relate)"""
+    from pyvc.values import Unsupported, VRef, to_z3, uid
+    if len(args) != 1 or kw or not _is_sym_str(args[0]):
+        raise Unsupported("open(): only open(<path>) is modelled")
+    e.may_raise(_z3.Bool(uid("os_error")), "OSError", node)
+    f = VRef("TextFile", st.alloc)
+    st.alloc = _z3.simplify(to_z3(st.alloc) + 1)
+    e.heap_write(st, f, "path", args[0])
+    return f
+
+
+def ext_file_enter(e, args, kw, node, st):
+    return args[0]
+
+
+def ext_file_exit(e, args, kw, node, st):
+    return False
+
+
+def _file_lines(e, path, st=None):
+    from pyvc.values import VList, to_z3
+    p = to_z3(path)
+    n = e.ufun("file_lines.n", _S(), _z3.IntSort())(p)
+    if st is not None:
+        st.assume(n >= 0)
+    return VList(n, e.ufun("file_lines.at", _S(), _z3.ArraySort(_z3.IntSort(), _S()))(p), ("str",))
+
+
+def ext_readlines(e, args, kw, node, st):
+    from pyvc.values import Unsupported
+    if len(args) != 1 or kw:
+        raise Unsupported("readlines(hint)")
+    return _file_lines(e, e.heap_read(st, args[0], "path"), st)
+
+
+def ext_read(e, args, kw, node, st):
+    from pyvc.values import Unsupported, to_z3
+    if len(args) != 1 or kw:
+        raise Unsupported("read(n)")
+    return e.ufun("file_text", _S(), _S())(to_z3(e.heap_read(st, args[0], "path")))
+
+
+ext_file_enter.pure = ext_file_exit.pure = ext_readlines.pure = ext_read.pure = True
+
+EXTERNALS = {"str.rstrip": ext_rstrip, "builtins.open": ext_open, "TextFile.__enter__": ext_file_enter, "TextFile.__exit__": ext_file_exit,
+             "TextFile.readlines": ext_readlines, "TextFile.read": ext_read,
+             "spec.file_lines": lambda e, args, kw, node, st: _file_lines(e, args[0]),
+             "spec.file_text": lambda e, args, kw, node, st: e.ufun("file_text", _S(), _S())(__import__("pyvc.values", fromlist=["to_z3"]).to_z3(args[0])),
+             "str.splitlines": ext_splitlines, "str.split": ext_split, "str.strip": ext_strip, "str.format": ext_format,
              "str.join": ext_join, "spec.int_ok": ext_int_ok, "spec.int_of": ext_int_of, "spec.str_of": ext_str_of,
              "spec.join_nl": lambda e, args, kw, node, st: ext_join(e, ["\n"] + list(args), kw, node, st)}
-SPEC_EXTERNALS = {"splitlines": "str.splitlines", "split": "str.split", "strip": "str.strip", "int_ok": "spec.int_ok",
+SPEC_EXTERNALS = {"rstrip": "str.rstrip", "file_lines": "spec.file_lines", "file_text": "spec.file_text", "splitlines": "str.splitlines", "split": "str.split", "strip": "str.strip", "int_ok": "spec.int_ok",
                   "int_of": "spec.int_of", "str_of": "spec.str_of", "join_nl": "spec.join_nl"}
 
 
@@ -236,7 +303,7 @@ def bad_number(t):
 @spec
 def line_of(e):
     """the BPSEQ line of an entry: "i c j" """
-    return dec(e.index_) + " " + e.sequence + " " + dec(e.pair)
+    return str_of(e.index_) + " " + e.sequence + " " + str_of(e.pair)
 
 
 @spec
@@ -276,9 +343,6 @@ LEMMAS = {
     # (the same definition, one step of it as a ground instance)
     "cnt_step": {"kind": "definition", "params": ["t", "k"], "shapes": ["str", "int"], "requires": ["k >= 0"],
                  "ensures": ["cnt(t, 0) == 0", "cnt(t, k + 1) == cnt(t, k) + ite(kept(t, k), 1, 0)"]},
-    # dec(i) is an abbreviation of str(i) as the engine encodes it (pyvc/expr.py to_str: str.from_int, '-' in front of a negative
-    # one): an explicit definition.  It keeps the if-then-else / str.from_int terms out of the round-trip proof.
-    "dec_definition": {"kind": "definition", "params": [], "ensures": ["forall(lambda i: dec(i) == str_of(i), pats=['dec(i)'])"]},
     # ---- assumed facts about the Python str methods (needed by the round trip only; each one is listed in props/C01.py)
     # T1  "\n".join(L).splitlines() == L when every line is three plain fields joined by single blanks (such a line is not
     #     empty and holds no line boundary: every line boundary is whitespace, a blank is not a line boundary)
@@ -298,9 +362,9 @@ LEMMAS = {
                        "ensures": ["len(split(three(a, b, c))) == 3", "split(three(a, b, c))[0] == a", "split(three(a, b, c))[1] == b",
                                    "split(three(a, b, c))[2] == c"]},
     # T4  the decimal text of an int is not empty and holds no whitespace (digits and possibly a leading '-')
-    "T4_int_text_plain": {"kind": "assumed-external", "params": ["i"], "ensures": ["plain(dec(i))"]},
+    "T4_int_text_plain": {"kind": "assumed-external", "params": ["i"], "ensures": ["plain(str_of(i))"]},
     # T5  int(str(i)) == i for every int i (and int() accepts that text)
-    "T5_int_of_int_text": {"kind": "assumed-external", "params": ["i"], "ensures": ["int_ok(dec(i))", "int_of(dec(i)) == i"]},
+    "T5_int_of_int_text": {"kind": "assumed-external", "params": ["i"], "ensures": ["int_ok(str_of(i))", "int_of(str_of(i)) == i"]},
     # ---- proved by SMT
     # a text whose first n lines are all kept has counted n of them (induction on n over the definition of cnt)
     "cnt_all_kept": {"kind": "smt", "params": ["t", "n"], "shapes": ["str", "int"], "decreases": "n",
@@ -313,7 +377,7 @@ LEMMAS = {
         "kind": "smt", "params": ["E", "L", "t", "R"], "shapes": ["list[Entry]", "list[str]", "str", "list[Entry]"],
         "requires": ["len(E) >= 0", "plain_symbols(E)", "written(E, L, t)"],
         "steps": [
-            "let A = [dec(e.index_) for e in E]", "let B = [e.sequence for e in E]", "let C = [dec(e.pair) for e in E]",
+            "let A = [str_of(e.index_) for e in E]", "let B = [e.sequence for e in E]", "let C = [str_of(e.pair) for e in E]",
             "forall k | use T4_int_text_plain(E[k].index_) | use T4_int_text_plain(E[k].pair) | assert implies(0 <= k and k < len(E), plain(A[k]) and plain(B[k]) and plain(C[k]) and L[k] == three(A[k], B[k], C[k]))",
             "use T1_join_splitlines(L, A, B, C)",
             "assert len(splitlines(t)) == len(E)",
@@ -381,10 +445,88 @@ class bpseq_str:
     ghost_returns = {"L": "list[str]"}
     raises = []
     modifies = []
-    ghost_entry = ["use dec_definition()"]
     ghost_exit = ["let L = JOINED"]
     ensures = ["written(self.entries, L, result)"]
     ensures_labels = {0: "one-line-per-entry-joined-by-newlines"}
 
 
-CONTRACTS = {"BpSeq.__post_init__": bpseq_post_init_any, "BpSeq.from_string": from_string, "BpSeq.__str__": bpseq_str}
+class bpseq_from_file:
+    """BpSeq.from_file(path): BpSeq.from_string of the text read from the file"""
+    target = "BpSeq.from_file"
+    params = {"bpseq_path": "str"}
+    requires = []
+    returns = "BpSeq"
+    raises = {"OSError": "?", "ValueError": "bad_number(file_text(bpseq_path))"}
+    raises_exact = ["ValueError"]
+    modifies = ["TextFile.path"]
+    ensures = ["fresh(result) and new_entries(result.entries)", "parsed(file_text(bpseq_path), result.entries)"]
+    ensures_labels = {0: "new-objects", 1: "entries-are-the-three-column-lines-of-the-file-in-file-order"}
+
+
+class db_post_init_frame:
+    """ASSUMED callee contract (not a target here; DotBracket.__post_init__ is proved in contracts/common_c.py, C01, under the
+    one-character-list representation of the two texts): it writes only self.pairs and raises nothing but IndexError
+    (unbalanced text)"""
+    target = "DotBracket.__post_init__"
+    params = {"self": "DotBracket"}
+    requires = []
+    raises = ["IndexError"]
+    ensures = []
+    modifies = ["DotBracket.pairs@self"]
+
+
+class db_from_string:
+    """DotBracket.from_string(sequence, structure): an object holding exactly the two texts; ValueError exactly when their
+    lengths differ"""
+    target = "DotBracket.from_string"
+    params = {"sequence": "str", "structure": "str"}
+    requires = []
+    returns = "DotBracket"
+    raises = {"ValueError": "len(sequence) != len(structure)", "IndexError": "?"}
+    raises_exact = ["ValueError"]
+    modifies = []
+    ensures = ["fresh(result) and result.sequence == sequence and result.structure == structure"]
+    ensures_labels = {0: "holds-the-two-texts"}
+
+
+@spec
+def fline(path, k):
+    """line k of the file, trailing whitespace (the newline) removed"""
+    return rstrip(file_lines(path)[k])
+
+
+class db_from_file:
+    """DotBracket.from_file(path): a 2-line file is (sequence, structure); a 3-line file is (header, sequence, structure), the
+    header being ignored; trailing whitespace of the lines is removed; any other number of lines: RuntimeError"""
+    target = "DotBracket.from_file"
+    params = {"path": "str"}
+    requires = []
+    returns = "DotBracket"
+    raises = {"OSError": "?", "IndexError": "?",
+              "RuntimeError": "len(file_lines(path)) != 2 and len(file_lines(path)) != 3",
+              "ValueError": "(len(file_lines(path)) == 2 and len(fline(path, 0)) != len(fline(path, 1))) or (len(file_lines(path)) == 3 and len(fline(path, 1)) != len(fline(path, 2)))"}
+    raises_exact = ["RuntimeError", "ValueError"]
+    modifies = ["TextFile.path"]
+    ensures = ["implies(len(file_lines(path)) == 2, result.sequence == fline(path, 0) and result.structure == fline(path, 1))",
+               "implies(len(file_lines(path)) == 3, result.sequence == fline(path, 1) and result.structure == fline(path, 2))",
+               "len(file_lines(path)) == 2 or len(file_lines(path)) == 3"]
+    ensures_labels = {0: "two-lines-sequence-structure", 1: "three-lines-header-sequence-structure", 2: "no-other-line-count-accepted"}
+
+
+class multistrand_from_string:
+    """MultiStrandDotBracket.from_string(text) - NOT ESTABLISHED, not a DEDUCTIVE target: the function is one `re.finditer` over a
+    regular expression with lazy quantifiers and optional groups (what it produces per strand: for every non-overlapping match,
+    left to right, of an optional '>' header line, a line of sequence letters and a line of bracket characters, one Strand(first,
+    last, sequence, structure) numbered consecutively from 1, the whole object holding the concatenated texts; text between
+    matches is skipped silently) followed by generator expressions over the strands.  The engine has no model of `re` matching
+    (pyvc/regex.py is the spec-side regular-language subset, not Python's leftmost / lazy match semantics) and refuses the call;
+    it is not approximated.  This stub only records the refusal (tools/try.py ... MultiStrandDotBracket.from_string)."""
+    target = "MultiStrandDotBracket.from_string"
+    params = {"input": "str"}
+    requires = []
+    raises = ["AssertionError"]
+    ensures = []
+
+
+CONTRACTS = {"MultiStrandDotBracket.from_string": multistrand_from_string, "BpSeq.from_file": bpseq_from_file, "DotBracket.__post_init__": db_post_init_frame, "DotBracket.from_string": db_from_string,
+             "DotBracket.from_file": db_from_file, "BpSeq.__post_init__": bpseq_post_init_any, "BpSeq.from_string": from_string, "BpSeq.__str__": bpseq_str}
